@@ -584,3 +584,91 @@ V("C13", "C13.R3", "c13-silent-rename-local", "shroud/util.py",
             if part == "\\f":  # formfeed
                 dump = True
                 save = False''', "silent")
+
+# ---------------------------------------------------------------------------
+# C17
+# ---------------------------------------------------------------------------
+V("C17", "C17.R1", "c17-raise-valueerror", "shroud/generate.py",
+  '''                raise RuntimeError(
+                    "Illegal value '{}' for deref attribute. "''',
+  '''                raise ValueError(
+                    "Illegal value '{}' for deref attribute. "''', "fire", "check_deref_attr")
+V("C17", "C17.R1", "c17-raise-notimplemented-const", "shroud/ast.py",
+  '''        """
+        raise NotImplementedError  # virtual function
+
+    def unqualified_lookup(self, name):
+        """Look for symbols within a scope.
+
+        An unqualified''',
+  '''        """
+        raise NotImplemented  # virtual function
+
+    def unqualified_lookup(self, name):
+        """Look for symbols within a scope.
+
+        An unqualified''', "fire", "qualified_lookup")
+V("C17", "C17.R2", "c17-none-node-deref", "shroud/generate.py",
+  '''        if node and arg.metaattrs["assumed-rank"]:''',
+  '''        if arg.metaattrs["assumed-rank"]:''', "fire", "_gen_fortran_generic")
+V("C17", "C17.R3", "c17-decl-statement-no-eof", "shroud/declast.py",
+  '''        self.have("SEMICOLON")
+        self.mustbe("EOF")
+        return node''',
+  '''        self.have("SEMICOLON")
+        return node''', "fire", "decl_statement")
+V("C17", "C17.R3", "c17-check-expr-no-eof", "shroud/declast.py",
+  '''    a = parser.expression()
+    parser.mustbe("EOF")
+    return a''',
+  '''    a = parser.expression()
+    return a''', "fire", "check_expr")
+V("C17", "C17.R4", "c17-colon-before-namespace", "shroud/declast.py",
+  '''    ("NAMESPACE", r"::"),
+    ("COLON", r":"),''',
+  '''    ("COLON", r":"),
+    ("NAMESPACE", r"::"),''', "fire", "COLON<NAMESPACE")
+V("C17", "C17.R4", "c17-skip-star", "shroud/declast.py",
+  '''    ("SKIP", r"[ \\t]"),  # Skip over spaces and tabs''',
+  '''    ("SKIP", r"[ \\t]*"),  # Skip over spaces and tabs''', "fire", "SKIP")
+V("C17", "C17.R4", "c17-integer-before-real", "shroud/declast.py",
+  '''    ("REAL", r"((((\\d+[.]\\d*)|(\\d*[.]\\d+))([Ee][+-]?\\d+)?)|(\\d+[Ee][+-]?\\d+))"),
+    ("INTEGER", r"\\d+"),''',
+  '''    ("INTEGER", r"\\d+"),
+    ("REAL", r"((((\\d+[.]\\d*)|(\\d*[.]\\d+))([Ee][+-]?\\d+)?)|(\\d+[Ee][+-]?\\d+))"),''', "fire", "REAL<INTEGER")
+V("C17", "C17.R5", "c17-qualifier-no-advance", "shroud/declast.py",
+  '''                setattr(node, self.token.value, True)
+                self.info("type-qualifier:", self.token.value)
+                self.next()
+            elif self.token.typ == "STORAGE_CLASS":''',
+  '''                setattr(node, self.token.value, True)
+                self.info("type-qualifier:", self.token.value)
+            elif self.token.typ == "STORAGE_CLASS":''', "fire", "declaration_specifier")
+V("C17", "C17.R5", "c17-pointer-qualifier-no-advance", "shroud/declast.py",
+  '''            while self.token.typ == "TYPE_QUALIFIER":  # const, volatile
+                setattr(node, self.token.value, True)
+                self.info("type-qualifier:", self.token.value)
+                self.next()''',
+  '''            while self.token.typ == "TYPE_QUALIFIER":  # const, volatile
+                setattr(node, self.token.value, True)
+                self.info("type-qualifier:", self.token.value)''', "fire", "pointer")
+V("C17", "C17.R6", "c17-paren-not-closed", "shroud/declast.py",
+  '''            node = ParenExpr(self.expression())
+            self.mustbe("RPAREN")''',
+  '''            node = ParenExpr(self.expression())
+            self.have("RPAREN")''', "fire", "primary")
+V("C17", "C17.R6", "c17-attribute-eof-loop", "shroud/declast.py",
+  '''                    elif self.token.typ == "EOF":
+                        raise RuntimeError(
+                            "Unbalanced parens in attribute {}".format(name)
+                        )''',
+  '''                    elif self.token.typ == "EOF":
+                        break''', "fire", "attribute")
+V("C17", "C17.R7", "c17-yaml-key-unchecked", "shroud/ast.py",
+  '''            if "instantiation" not in dct:
+                raise RuntimeError(
+                    "instantation must be defined for each dictionary in cxx_template"
+                )
+''', '', "fire", "instantiation")
+V("C17", "C17.R1", "c17-silent-message-change", "shroud/generate.py",
+  '"Cannot have attribute \'deref\' on non-pointer")', '"deref attribute requires a pointer or reference")', "silent")
